@@ -84,6 +84,48 @@ fn bases() -> Vec<(&'static str, R)> {
         let body = br#"<CreateBucketConfiguration xmlns="http://s3.amazonaws.com/doc/2006-03-01/"><LocationConstraint>eu-west-1</LocationConstraint></CreateBucketConfiguration>"#;
         v.push(("anonymous-put-bucket-xml", mk(Req::new("PUT", "/bkt").header("host", HOST).header("content-length", &body.len().to_string()), body)));
     }
+    // signed requests that do NOT hash the payload, on operations whose body is a buffered document (XML / policy text):
+    // the body is still a stream when the operation decodes it
+    {
+        let tagging = br#"<Tagging xmlns="http://s3.amazonaws.com/doc/2006-03-01/"><TagSet><Tag><Key>a</Key><Value>b</Value></Tag></TagSet></Tagging>"#;
+        let policy = br#"{"Version":"2012-10-17","Statement":[]}"#;
+        {
+            let mut r = Req::new("PUT", "/bkt/k?tagging").header("host", HOST).header("content-length", &tagging.len().to_string());
+            sign_v4_header(&mut r, SK, &scope, DATE, "UNSIGNED-PAYLOAD", &["content-length"]);
+            v.push(("v4-header-unsigned-payload-put-tagging-xml", mk(r, tagging)));
+        }
+        {
+            let mut r = Req::new("PUT", "/bkt?policy").header("host", HOST).header("content-length", &policy.len().to_string());
+            sign_v4_header(&mut r, SK, &scope, DATE, "UNSIGNED-PAYLOAD", &["content-length"]);
+            v.push(("v4-header-unsigned-payload-put-policy-text", mk(r, policy)));
+        }
+        {
+            let mut r = Req::new("PUT", "/bkt/k?tagging").header("host", HOST).header("content-length", &tagging.len().to_string());
+            presign_v4(&mut r, SK, &scope, DATE, "3600", &["host"]);
+            v.push(("v4-presigned-put-tagging-xml", mk(r, tagging)));
+        }
+        {
+            let mut r = Req::new("PUT", "/bkt/k?tagging").header("host", HOST).header("content-length", &tagging.len().to_string()).header("date", "Thu, 29 Feb 2024 12:00:00 GMT");
+            let sts = v2_string_to_sign(&r, "Thu, 29 Feb 2024 12:00:00 GMT", None).unwrap();
+            r.headers.push(("authorization".into(), format!("AWS {AK}:{}", v2_signature(SK, &sts)).into_bytes()));
+            v.push(("v2-header-put-tagging-xml", mk(r, tagging)));
+        }
+        {
+            let mut r = Req::new("PUT", "/bkt?policy").header("host", HOST).header("content-length", &policy.len().to_string());
+            let exp = (t0 + 3600).to_string();
+            let sts = v2_string_to_sign(&r, &exp, None).unwrap();
+            r.target.push_str(&format!("&AWSAccessKeyId={AK}&Expires={exp}&Signature={}", uri_encode(&v2_signature(SK, &sts), true)));
+            v.push(("v2-presigned-put-policy-text", mk(r, policy)));
+        }
+        {
+            // chunk-signed body on a buffered-document operation
+            let mut r = Req::new("PUT", "/bkt/k?tagging").header("host", HOST).header("content-encoding", "aws-chunked").header("x-amz-decoded-content-length", &tagging.len().to_string());
+            let seed = sign_v4_header(&mut r, SK, &scope, DATE, "STREAMING-AWS4-HMAC-SHA256-PAYLOAD", &["content-encoding", "x-amz-decoded-content-length"]);
+            let body: Vec<u8> = encode_chunks(SK, &scope, DATE, &seed, &[tagging.to_vec()]).iter().flat_map(|c| c.bytes()).collect();
+            r.set_header("content-length", &body.len().to_string());
+            v.push(("v4-header-chunk-signed-put-tagging-xml", mk(r, &body)));
+        }
+    }
     v.push(("anonymous-copy-object", mk(Req::new("PUT", "/bkt/k").header("host", HOST).header("x-amz-copy-source", "src/k%20x?versionId=v").header("x-amz-copy-source-range", "bytes=0-4"), b"")));
     v.push(("anonymous-ranged-get", mk(Req::new("GET", "/bkt/k").header("host", HOST).header("range", "bytes=0-4").header("if-modified-since", "Thu, 29 Feb 2024 12:00:00 GMT"), b"")));
     v
@@ -512,7 +554,20 @@ fn totality(acc: &mut Acc, tier: Tier) -> usize {
             }
         };
         match first {
-            None => run(a, &[]),
+            None => {
+                run(a, &[]);
+                // self-check of the harness: a signed base request is an honest one - under the provider, with nothing else
+                // configured, it is answered 2xx (the recording backend answers every operation)
+                if c == 0 && (bname.starts_with("v4-") || bname.starts_with("v2-") || *bname == "post-form") {
+                    set_clock_ms((t0 + 60) * 1000);
+                    let (svc, _log) = cfg.build();
+                    let out = call(&svc, &base.req, body_from_steps(steps(&base.body)));
+                    if !out.resp().is_some_and(|r| r.status.as_u16() < 300) {
+                        crate::common::machinery_failure(&format!("C04 base request {bname} is not an honest request: {}", out.verdict()));
+                    }
+                    a.count("signed_base_requests_confirmed_honest(2xx under the provider)", 1);
+                }
+            }
             Some(s1) => {
                 run(a, &[s1]);
                 if k >= 2 {
@@ -703,7 +758,7 @@ pub fn run(ctx: &Ctx) -> (Acc, Report) {
     let k = ctx.tier.pick(2, 3);
     let rep = Report {
         level: "exploration",
-        rule: format!("(a) 13 valid base requests (anonymous GET/HEAD/list, V4 header with unsigned / signed / chunk-signed payload, V4 presigned, V2 header, V2 presigned, POST form, XML PUT, copy, ranged GET) x 16 service configurations x every combination of at most {k} deviations (triples on 2 configurations) out of {n_single} single deviations: 9 methods, 21 paths, 42 queries, 32 interpreted headers x {{absent, empty, garbage, opaque bytes >= 0x80, plausible-but-wrong, duplicated}}, 5 bodies incl. I/O errors, 2 HTTP versions. (a2) {n_chars} character-level deviations: every decoded text the adapter interprets (each query parameter value of each base - the presigned-URL parameters of both signature versions among them -, the key, the copy source, each field of the POST form) with a 2-, 3- and 4-byte character, NUL, '%' and '/' written over and inserted at every byte offset, on 4 configurations. Oracle: no panic, no hang, Ok(response), and for status >= 400 a well-formed <Error> document whose code has that status in data/s3_error_codes.json. (b) every code of the error table + 2 custom codes x 10 messages x 3 request ids x status override x 4 header maps (none, one, three, one with a name attached twice) x {{S3Error::to_http_response, backend error through GetObject}}. Distinct by id."),
+        rule: format!("(a) 19 valid base requests (anonymous GET/HEAD/list, V4 header with unsigned / signed / chunk-signed payload, V4 presigned, V2 header, V2 presigned, POST form, XML PUT, copy, ranged GET; and six signed requests that do not hash the payload - unsigned payload, presigned, SigV2, chunk-signed - on operations whose body is a buffered XML or policy document) x 16 service configurations x every combination of at most {k} deviations (triples on 2 configurations) out of {n_single} single deviations: 9 methods, 21 paths, 42 queries, 32 interpreted headers x {{absent, empty, garbage, opaque bytes >= 0x80, plausible-but-wrong, duplicated}}, 5 bodies incl. I/O errors, 2 HTTP versions. (a2) {n_chars} character-level deviations: every decoded text the adapter interprets (each query parameter value of each base - the presigned-URL parameters of both signature versions among them -, the key, the copy source, each field of the POST form) with a 2-, 3- and 4-byte character, NUL, '%' and '/' written over and inserted at every byte offset, on 4 configurations. Oracle: no panic, no hang, Ok(response), and for status >= 400 a well-formed <Error> document whose code has that status in data/s3_error_codes.json. (b) every code of the error table + 2 custom codes x 10 messages x 3 request ids x status override x 4 header maps (none, one, three, one with a name attached twice) x {{S3Error::to_http_response, backend error through GetObject}}. Distinct by id."),
         exhaustive: true,
         extra: json!({"single_deviations": n_single, "character_level_deviations": n_chars, "error_codes": ERROR_TABLE.len()}),
         assumptions: vec!["a transport failure after an injected body I/O error is not judged (it is a transport problem, not a request problem)".into(), "requests the http crate itself refuses cannot reach the adapter and are outside the space".into(), "messages do not contain a bare carriage return (XML line-end normalisation is C13's subject)".into()],
